@@ -974,14 +974,14 @@ func C07() *check.Property {
 		Title:    "Errors and panics surface once as an Error notification, never as a crash",
 		Patterns: cat(CorePatterns, PluginPkgs, IOPluginPkgs, []string{PromPkg}, RatePkgs),
 		Scope:    append([]string{ro}, IOPluginPkgs...),
-		Rules:    []check.Rule{ruleInnerTerminalBeforeDestination(), ruleFlushErrorChecked(), ruleUserFnContext(), ruleGoRecover(), ruleCoreRecover(), ruleErrResultUsed(), ruleUnwrap(), ruleLockPairing(), rulePanicSafeUnlock(), ruleErrorKind(), ruleLockRegion(), ruleNilGuardPolarity(), ruleNilableCallbackGuarded(), ruleSlotGuardAgreement(), ruleAccessGuarded(), ruleNoEmitUnderTeardownLock(), ruleShareReplayConfig(), ruleTerminalReleaseAgreement(), ruleErrorBeforeRelease()},
+		Rules:    []check.Rule{ruleInnerTerminalBeforeDestination(), ruleInnerTerminated(), ruleMultiProducerSafe(), ruleSubjectBroadcastLocked(), ruleFlushErrorChecked(), ruleUserFnContext(), ruleGoRecover(), ruleCoreRecover(), ruleErrResultUsed(), ruleUnwrap(), ruleLockPairing(), rulePanicSafeUnlock(), ruleErrorKind(), ruleLockRegion(), ruleNilGuardPolarity(), ruleNilableCallbackGuarded(), ruleSlotGuardAgreement(), ruleAccessGuarded(), ruleNoEmitUnderTeardownLock(), ruleShareReplayConfig(), ruleTerminalReleaseAgreement(), ruleErrorBeforeRelease()},
 		Explanation: "Static effect/placement check. User code can run in four kinds of places; the rules prove where each call of a user-supplied function sits (from the model's emission contexts) and that the recover points exist: " +
 			"the subscribe function runs inside a try whose handler emits Error and unsubscribes (CORE-RECOVER), observer callbacks run inside the try* helpers, library goroutines go through the recover wrapper or contain no user call (GO-RECOVER), " +
 			"user functions are only called in the subscribe body, a next slot or a teardown (USER-FN-CONTEXT), errors returned by callees become Error notifications without falling through (ERR-RESULT-USED), error wrappers unwrap (UNWRAP) and no function leaves a lock held on a normal exit (LOCK-PAIRING).",
 		NotDecided:  "panics in custom Observer implementations while subscriberImpl.mu is held (the unlocks are not deferred); exactly-once along a chain (follows from C01); the injected-fault sequences themselves (no execution).",
 		Assumptions: []string{"lo.TryCatchWithErrorValue recovers panics of its first argument and passes the value to the second"},
 		Floors:      map[string]int{"user_calls": 30, "go_statements": 8, "functions_with_locks": 40, "error_wrappers": 3, "foreign_calls_in_locking_functions": 1, "error_slot_notifications": 80, "delivering_methods": 3, "error_wrapper_constructors": 3},
-		Controls:    map[string]string{"zz_verif_controls_c07.go": roControl(controlsC07 + controlsC07b + controlsInnerTerminal + controlsFlushError), "zz_verif_controls_nilguard.go": roControl(controlsNilGuard + controlsNilableCallback), "zz_verif_controls_access.go": roControl(controlsAccessGuard), "zz_verif_controls_termrel.go": roControl(controlsTerminalRelease + controlsErrorBeforeRelease), "zz_verif_controls_c06.go": roControl(controlsC06)},
+		Controls:    map[string]string{"zz_verif_controls_c07.go": roControl(controlsC07 + controlsC07b + controlsInnerTerminal + controlsInnerTerminated + controlsFlushError), "zz_verif_controls_c02.go": roControl(controlsC02), "zz_verif_controls_nilguard.go": roControl(controlsNilGuard + controlsNilableCallback), "zz_verif_controls_access.go": roControl(controlsAccessGuard), "zz_verif_controls_termrel.go": roControl(controlsTerminalRelease + controlsErrorBeforeRelease), "zz_verif_controls_c06.go": roControl(controlsC06)},
 	}
 }
 
@@ -1172,6 +1172,7 @@ func rulePanicSafeUnlock() check.Rule {
 		Run: func(c *check.Ctx) {
 			m := c.M
 			scs := scLits(m)
+			termSeen := map[string]int{}
 			params := map[*types.Var]bool{}
 			for _, p := range m.Pkgs {
 				for _, fn := range funcNodes(p) {
@@ -1220,12 +1221,29 @@ func rulePanicSafeUnlock() check.Rule {
 						if fv == nil {
 							// a terminal notification runs the teardowns of the subscriber that receives it, and Unsubscribe
 							// re-raises their panics: sending one is calling code the library does not own
-							what := ""
+							what, detail := "", ""
 							if name, isObs := m.Obj.ObserverMethods[model.Callee(info, call)]; isObs && notifKind(name) > 0 {
 								what = name
+							} else if name, isSub := m.Obj.SubscriptionMethods[model.Callee(info, call)]; isSub && name == "Unsubscribe" {
+								what = "Unsubscribe" // runs the teardowns and re-raises their panics
 							} else if k := subjectHelperKind(m, p, call); k == "broadcast" {
 								if sendsTerminal(m, p, call) {
 									what = shortCallee(info, call)
+								}
+							} else if len(res.UndeferredAt(call)) > 0 {
+								// a local closure or helper of the repository that unsubscribes / sends a terminal (Share's reset)
+								for _, b := range calleeBodies(m, p, call) {
+									inspectTransitive(m, b.Pkg, b.Body, 2, func(q *packages.Package, y ast.Node) bool {
+										if c2, ok := y.(*ast.CallExpr); ok && what == "" {
+											if name, isSub := m.Obj.SubscriptionMethods[model.Callee(q.TypesInfo, c2)]; isSub && name == "Unsubscribe" {
+												what, detail = shortCallee(info, call), " (which calls Unsubscribe)"
+											}
+											if name, isObs := m.Obj.ObserverMethods[model.Callee(q.TypesInfo, c2)]; isObs && notifKind(name) > 0 {
+												what, detail = shortCallee(info, call), " (which sends "+name+")"
+											}
+										}
+										return what == ""
+									})
 								}
 							}
 							if what == "" {
@@ -1240,8 +1258,11 @@ func rulePanicSafeUnlock() check.Rule {
 							}
 							n++
 							c.Inc("terminal_notifications_in_locking_functions", 1)
-							key := fmt.Sprintf("%s/terminal-under-lock-%s#%d", chainKey(m, p, m.EnclosingFuncs(p, fn), scs), what, n)
-							c.Report(armed, key, call.Pos(), "%s delivers a terminal notification while %s is held and released only by an explicit Unlock: the receiving subscriber closes itself and runs its teardowns inside the notification, Unsubscribe re-raises a teardown's panic, and the panic unwinds past the Unlock — the lock stays held, the other observers are never notified and every later call blocks", what, held)
+							base := fmt.Sprintf("%s/terminal-under-lock-%s", chainKey(m, p, m.EnclosingFuncs(p, fn), scs), what)
+							termSeen[base]++
+							key := fmt.Sprintf("%s#%d", base, termSeen[base])
+							what += detail
+							c.Report(armed, key, call.Pos(), "%s delivers a terminal notification (or runs teardowns) while %s is held and released only by an explicit Unlock: the receiving subscriber closes itself and runs its teardowns inside the notification, Unsubscribe re-raises a teardown's panic, and the panic unwinds past the Unlock — the lock stays held, the other observers are never notified and every later call blocks", what, held)
 							return true
 						}
 						if _, isSig := fv.Type().Underlying().(*types.Signature); !isSig {
